@@ -8,6 +8,18 @@ PY = "/venv/bin/python"
 
 # id -> (technique, level text, level note, design ref)
 CHECKS = {
+    "C05": (
+        "exhaustive enumeration of short strings and split points + Hypothesis over a rich alphabet (+ atheris in thorough), with an independent ODF 6.1.2 white-space interpreter as oracle",
+        "Every string over a 7-character alphabet up to a length bound, in all 2-way splits, is turned into Paragraph/Header/Span; reported text, re-parsed text and class, C14N stability and the text an independent white-space-collapsing consumer reads must all equal the input. Random long strings over a rich alphabet go beyond the bound.",
+        "Trusts lib/odfread.ws_text as a transcription of ODF 1.2 part 1 section 6.1.2 and lxml parsing.",
+        "DESIGN.md 3/C05",
+    ),
+    "C06": (
+        "Hypothesis with boundary-weighted value strategies per type across all carriers; oracle = documented read-back relation + lexical-space regexes + independent lxml decoding",
+        "Each generated value is stored through every carrier (cells, rows, tables, variables, user fields, user-defined metadata) and read back directly, after re-parsing the element and after saving and reloading whole documents; type and equality are judged by the documented mapping and the attributes are checked against the ODF lexical spaces.",
+        "Numeric mapping int-if-integral-else-Decimal and Date->datetime at midnight are taken from the documentation.",
+        "DESIGN.md 3/C06",
+    ),
     "C17": (
         "Hypothesis over compositions of whole-table transformations with metamorphic oracles (involution, idempotence, sub-grid/only-empties-vanish, span rectangle map, CSV round trip) read through an independent lxml expansion",
         "Generated run-length-encoded tables (ragged, styled empties, trailing repeated empties, spans) go through up to 6 steps of transpose-twice, rstrip, optimize_width, set_span/del_span and CSV export/import; each step is judged against the independent before/after matrices, plus lint and live-vs-fresh-parse equality.",
